@@ -582,3 +582,48 @@ func (d *Device) PagesInUse() int {
 
 var _ backend.Storage = (*Device)(nil)
 var _ backend.WritableFile = (*Device)(nil)
+
+// WriteRangeTo writes [lo,hi) into a (sparse) host file: only materialised or
+// patterned pages are written, the rest stays a hole.
+func (d *Device) WriteRangeTo(path string, lo, hi int64) error {
+	f, err := os.OpenFile(path, os.O_RDWR|os.O_CREATE|os.O_TRUNC, 0o644)
+	if err != nil {
+		return err
+	}
+	defer f.Close()
+	if err := f.Truncate(hi - lo); err != nil {
+		return err
+	}
+	d.mu.Lock()
+	defer d.mu.Unlock()
+	buf := make([]byte, pageSize)
+	for pi := lo >> pageBits; pi<<pageBits < hi; pi++ {
+		pg, ok := d.pages[pi]
+		base := pi << pageBits
+		patterned := false
+		for _, p := range d.patterns {
+			if p.Lo < base+pageSize && p.Hi > base {
+				patterned = true
+			}
+		}
+		if !ok && !patterned {
+			continue
+		}
+		if ok {
+			copy(buf, pg[:])
+		} else {
+			d.bgFill(buf, base)
+		}
+		s, e := base, base+pageSize
+		if s < lo {
+			s = lo
+		}
+		if e > hi {
+			e = hi
+		}
+		if _, err := f.WriteAt(buf[s-base:e-base], s-lo); err != nil {
+			return err
+		}
+	}
+	return nil
+}
